@@ -106,9 +106,12 @@ func main() {
 		fmt.Fprintln(os.Stderr, "govc: load failed:", err)
 		os.Exit(2)
 	}
-	timeout := 10
+	timeout := 60
 	if *tier == "thorough" {
-		timeout = 60
+		timeout = 180
+	}
+	if v, err := strconv.Atoi(os.Getenv("GOVC_TIMEOUT")); err == nil && v > 0 {
+		timeout = v // debugging aid
 	}
 	if *fnFlag != "" {
 		fn := l.funcs[*fnFlag]
